@@ -61,26 +61,27 @@ type wdTx struct {
 }
 
 type bridgeGen struct {
-	s       *Session
-	r       *rand.Rand
-	net     *chaincfg.Params
-	chain   map[uint64]*btcBlock
-	mined   uint64                       // highest mined bitcoin height
-	pending []func(b *btcBlock, pos int) // callbacks to record where a pending tx got mined
-	pendRaw [][]byte
-	keys    []*sim.BtcKey // every key the driver ever created (registered or not)
-	evms    [][]byte
-	addrIDs map[string]string
-	wdNext  uint64
-	idsFrom uint64 // wdNext when the current block was planned
-	deps    []*depInfo
-	wtxs    []*wdTx
-	cbDep   *depInfo // a deposit placed in a coinbase transaction
-	orphan  *depInfo // the deposit of the registration that was undone in the previous block: presented again, alone
-	netName string
-	mode    string
-	clean   bool // no execution-layer request that makes the block message fail
-	nkey    int
+	s            *Session
+	r            *rand.Rand
+	net          *chaincfg.Params
+	chain        map[uint64]*btcBlock
+	mined        uint64                       // highest mined bitcoin height
+	pending      []func(b *btcBlock, pos int) // callbacks to record where a pending tx got mined
+	pendRaw      [][]byte
+	keys         []*sim.BtcKey // every key the driver ever created (registered or not)
+	evms         [][]byte
+	addrIDs      map[string]string
+	wdNext       uint64
+	idsFrom      uint64 // wdNext when the current block was planned
+	forceReplace bool   // spv histories: the next process / replace message is a fee bump
+	deps         []*depInfo
+	wtxs         []*wdTx
+	cbDep        *depInfo // a deposit placed in a coinbase transaction
+	orphan       *depInfo // the deposit of the registration that was undone in the previous block: presented again, alone
+	netName      string
+	mode         string
+	clean        bool // no execution-layer request that makes the block message fail
+	nkey         int
 }
 
 func (g *bridgeGen) addrID(a string) string {
@@ -818,8 +819,44 @@ func (g *bridgeGen) plan(mode string) (*BlockPlan, error) {
 			ntx = 1
 		}
 	}
+	// spv histories steer towards what C04's second observation point needs: a processing batch, a fee bump of it, the replacement
+	// mined below the voted tip, its finalisation (two blocks in three; otherwise the usual random mix)
+	want := -1
+	g.forceReplace = false
+	if mode == "spv" && !rare(3) {
+		have2, laterMined, pend := false, false, false
+		for _, p := range st.Proc {
+			if len(p.Txids) >= 2 {
+				have2 = true
+				for _, w := range g.wtxs {
+					if k := indexOfStr(p.Txids, project.H6(w.txid)); k >= 1 && w.pid == p.Pid && w.mined && int64(w.blk) <= st.Tip {
+						laterMined = true
+					}
+				}
+			}
+		}
+		for _, w := range st.Wd {
+			pend = pend || w.Status == "pending"
+		}
+		switch {
+		case laterMined:
+			want = 16
+		case have2:
+			want = 0
+		case len(st.Proc) > 0:
+			want, g.forceReplace = 14, true
+		case pend:
+			want = 14
+		}
+		if want >= 0 && ntx < 1 {
+			ntx = 1
+		}
+	}
 	for k := 0; k < ntx; k++ {
 		x := r.Intn(22)
+		if want >= 0 && k == 0 {
+			x = want
+		}
 		if nearCb && k == 0 {
 			x = 10 // present the coinbase deposit at every height around its maturity
 		}
@@ -1186,7 +1223,7 @@ func (g *bridgeGen) processTx(vc *voteCtx, st *project.BridgeState) (*brTx, erro
 		}
 	}
 	cur := g.curKey()
-	replace := len(st.Proc) > 0 && (rare(3) || (g.mode == "spv" && rare(2)))
+	replace := len(st.Proc) > 0 && (rare(3) || (g.mode == "spv" && rare(2)) || g.forceReplace)
 	var ids []int64
 	var pid int64
 	var prevFee int64
@@ -1339,15 +1376,24 @@ func (g *bridgeGen) finalizeMsg(vc *voteCtx, st *project.BridgeState) (sdk.Msg, 
 	}
 	w := cand[r.Intn(len(cand))]
 	large := false
-	if g.mode == "spv" && rare(2) { // a batch that was fee-bumped: prefer the mined transaction that is NOT the latest replacement
+	if g.mode == "spv" && rare(2) { // a batch that was fee-bumped: one of its mined transactions - the original, a replacement, the latest
+		var bumped, later []*wdTx
 		for _, p := range st.Proc {
 			for _, c := range cand {
-				if len(p.Txids) >= 2 && c.pid == p.Pid {
-					if k := indexOfStr(p.Txids, project.H6(c.txid)); k >= 0 && k < len(p.Txids)-1 {
-						w = c
+				if k := indexOfStr(p.Txids, project.H6(c.txid)); len(p.Txids) >= 2 && c.pid == p.Pid && k >= 0 {
+					bumped = append(bumped, c)
+					if k >= 1 {
+						later = append(later, c)
 					}
 				}
 			}
+		}
+		if len(later) > 0 && !rare(3) {
+			w = later[r.Intn(len(later))]
+		} else if len(bumped) > 0 {
+			w = bumped[r.Intn(len(bumped))]
+		} else if rare(2) {
+			return nil, nil // leave the batches alone for now: a fee bump may still come
 		}
 	}
 	if g.mode == "burst" { // the mined transaction of a large batch still in processing goes first, and unspoilt
